@@ -114,6 +114,25 @@ func canon(r RS) RS {
 	return r
 }
 
+// rawCanon: the ReplicaSet controller has NOT reacted yet: status.availableReplicas keeps its old value
+// even where it exceeds the new spec.replicas (a stale status, as the informer cache shows it right
+// after the deployment controller's own write)
+func rawCanon(r RS) RS {
+	if r.S == 0 {
+		r.A, r.D, r.M = 0, -1, -1
+	}
+	return r
+}
+
+func stale(s State) bool {
+	for _, o := range s.Olds {
+		if o.A > o.S {
+			return true
+		}
+	}
+	return s.Nx && s.N.A > s.N.S
+}
+
 type IOS struct {
 	T string
 	V int
@@ -208,7 +227,7 @@ func buildRS(d *appsv1.Deployment, name string, idx int, r RS, tmpl corev1.PodTe
 			Selector: &metav1.LabelSelector{MatchLabels: tmpl.Labels},
 			Template: tmpl,
 		},
-		Status: appsv1.ReplicaSetStatus{Replicas: int32(r.S), FullyLabeledReplicas: int32(r.S), ReadyReplicas: int32(r.A), AvailableReplicas: int32(r.A), ObservedGeneration: 1},
+		Status: appsv1.ReplicaSetStatus{Replicas: int32(maxInt(r.S, r.A)), FullyLabeledReplicas: int32(maxInt(r.S, r.A)), ReadyReplicas: int32(r.A), AvailableReplicas: int32(r.A), ObservedGeneration: 1},
 	}
 	if copyAnno {
 		// steady state: the controller has already copied the deployment's annotations to its new RS
@@ -225,6 +244,13 @@ func buildRS(d *appsv1.Deployment, name string, idx int, r RS, tmpl corev1.PodTe
 		rs.Annotations[deploymentutil.MaxReplicasAnnotation] = fmt.Sprintf("%d", r.M)
 	}
 	return rs
+}
+
+func maxInt(a, b int) int {
+	if a > b {
+		return a
+	}
+	return b
 }
 
 func oldName(i int) string { return fmt.Sprintf("demo-old%d", i+1) }
@@ -247,7 +273,11 @@ func annoInt(rs *appsv1.ReplicaSet, k string) int {
 
 // realSync: one real syncDeployment + patchExtraStatus on the concrete image of s, then the
 // ReplicaSet controller's reaction, projected back.
-func realSync(s State) (res syncRes) {
+func realSync(s State, raw bool) (res syncRes) {
+	canon := canon
+	if raw {
+		canon = rawCanon
+	}
 	res.post = s.clone()
 	defer func() {
 		if r := recover(); r != nil {
@@ -352,10 +382,63 @@ func syncOf(s State) syncRes {
 	if r, ok := memo.Load(k); ok {
 		return r.(syncRes)
 	}
-	r := realSync(s)
+	r := realSync(s, false)
 	atomic.AddInt64(&realSyncs, 1)
 	memo.Store(k, r)
 	return r
+}
+
+// syncRawOf: the real Sync WITHOUT the ReplicaSet controller's reaction (the next sync sees stale statuses)
+func syncRawOf(s State) syncRes {
+	s.R0 = s.R
+	k := "raw|" + s.key()
+	if r, ok := memo.Load(k); ok {
+		return r.(syncRes)
+	}
+	r := realSync(s, true)
+	atomic.AddInt64(&realSyncs, 1)
+	memo.Store(k, r)
+	return r
+}
+
+// staleRuns: 2 and 3 back-to-back real Syncs during which the ReplicaSet controller has not reacted
+// (every sync but the first sees the spec.replicas it wrote and the OLD statuses), followed by the
+// reaction. Only for a deployment whose size is not being changed, and only while a status is stale.
+type staleRun struct {
+	act string
+	res syncRes
+}
+
+func resizing(s State) bool {
+	if s.R != s.R0 {
+		return true
+	}
+	all := append(append([]RS(nil), s.Olds...), s.N)
+	for j, r := range all {
+		if j == len(s.Olds) && !s.Nx {
+			break
+		}
+		if r.S > 0 && r.D >= 0 && r.D != s.R {
+			return true
+		}
+	}
+	return false
+}
+
+func staleRuns(s State) (out []staleRun) {
+	if resizing(s) {
+		return nil
+	}
+	cur := s
+	for k := 2; k <= 3; k++ {
+		m := syncRawOf(cur)
+		if m.panic != "" || m.err != "" || !stale(m.post) || resizing(m.post) {
+			return
+		}
+		out = append(out, staleRun{act: fmt.Sprintf("Sync%d", k), res: syncOf(m.post)})
+		cur = m.post
+	}
+	return
 }
 
 type convRes struct {
@@ -559,7 +642,7 @@ func main() {
 	}
 
 	maxDepth := 0
-	explore := func(i int, r syncRes, cv convRes) {
+	explore := func(i int, r syncRes, cv convRes, sr []staleRun) {
 		s := nodes[i].s
 		if nodes[i].depth > maxDepth {
 			maxDepth = nodes[i].depth
@@ -568,6 +651,13 @@ func main() {
 		record(i, "Sync", inOf(i, "Sync"), outOf(r.post, false, 0), r)
 		if r.panic == "" {
 			add(r.post, i, "Sync")
+		}
+		// Sync2 / Sync3: back-to-back real Syncs on stale ReplicaSet statuses
+		for _, x := range sr {
+			record(i, x.act, inOf(i, x.act), outOf(x.res.post, false, 0), x.res)
+			if x.res.panic == "" {
+				add(x.res.post, i, x.act)
+			}
 		}
 		// Converge (D5): fair schedule to a fixed point when the partition covers every replica
 		if cv.on {
@@ -625,8 +715,9 @@ func main() {
 		workers = 12
 	}
 	type pre struct {
-		sync syncRes
-		conv convRes
+		sync  syncRes
+		conv  convRes
+		stale []staleRun
 	}
 	lo := 0
 	for lo < len(nodes) && !(fl.Only != 0 && cases >= fl.Only) {
@@ -647,6 +738,7 @@ func main() {
 					}
 					s := nodes[i].s
 					res[i-lo].sync = syncOf(s)
+					res[i-lo].stale = staleRuns(s)
 					if L, _, _ := derived(s); L == s.R {
 						res[i-lo].conv = converge(s)
 					}
@@ -658,7 +750,7 @@ func main() {
 			if fl.Only != 0 && cases >= fl.Only {
 				break
 			}
-			explore(i, res[i-lo].sync, res[i-lo].conv)
+			explore(i, res[i-lo].sync, res[i-lo].conv, res[i-lo].stale)
 		}
 		lo = hi
 	}
